@@ -9,6 +9,7 @@ from .. import astq
 from ..fold import Folder, RegexConst, classes_in, group_width
 from ..loader import AnalysisError, AnchorMissing, ClassInfo, FuncInfo, dotted, norm, walk_no_nested
 from ..report import Ctx
+from . import _c06_helpers as S6
 from . import _c11_helpers as H
 from ._c11_helpers import FA
 
@@ -18,7 +19,8 @@ LEVEL_TEXT = (
     "the one applied to If-Match admits a strong match and '*', the one applied to the If-Range tag admits a strong match "
     "(truth tables computed from the ETags methods' branch structure), each gets the unquoted response ETag and enters "
     "the verdict with the right polarity; parse_etags files weak and strong tags under the constructor parameter of that "
-    "name; (R11.2) precedence as a truth table: is_resource_modified is executed path by path with its conditions as "
+    "name (read off its control flow, or - member loop in a generator helper, lists kept in a table indexed by the flag "
+    "or built by comprehensions - off its symbolic summary); (R11.2) precedence as a truth table: is_resource_modified is executed path by path with its conditions as "
     "abstract booleans (ETag present, If-Range gate = not ignore_if_range / Range sent / If-Range carries a tag, "
     "If-None-Match / If-Match parsed non-empty, the three comparison results; every other condition, the date tests "
     "included, free) and the verdict as a value, so assignment, conditional set, conditional expression, flag local and "
@@ -28,7 +30,9 @@ LEVEL_TEXT = (
     "validator was due (rows with neither validator, and with both If-Match and If-None-Match, are not constrained); (R11.3) every non-None Last-Modified value reaching the date comparison passed the "
     "naive-or-convert UTC normalisation and a replace() that clears exactly the microseconds, the comparison is "
     "'not later than', and its verdict depends on nothing else; (R11.4) range processing, 304 and 412 are dominated by the "
-    "GET/HEAD test, 304/412 by 'not modified' for the response's own ETag and Last-Modified, 412 by a non-empty If-Match; "
+    "GET/HEAD test, 304/412 by 'not modified' for the response's own ETag and Last-Modified, 412 by a non-empty If-Match "
+    "(status chosen by branches, a conditional expression or a two-entry table indexed by that test; arguments passed "
+    "directly or through a literal * / ** table); "
     "the 206 path by the Range / If-Range (ignore_if_range=False) gate; (R11.5) Content-Length, Content-Range, the "
     "_RangeWrapper window and status 206 derive from one range_for_length / to_content_range_header pair of one parsed "
     "Range and one complete length, status is set before the wrap, the wrap passes (start, length) to (start_byte, "
@@ -368,7 +372,183 @@ def _is_list_creation(e: ast.AST | None) -> bool:
     return isinstance(e, ast.List) and not e.elts or isinstance(e, ast.Call) and dotted(e.func) == "list" and not e.args and not e.keywords
 
 
+class _Deferred:
+    """records obligations / floors of one attempt; they are handed to the real Ctx only when the attempt got through"""
+
+    def __init__(self, ctx: Ctx):
+        self.repo = ctx.repo
+        self._ctx = ctx
+        self._calls: list[tuple[str, tuple]] = []
+
+    def ob(self, *a) -> None:
+        self._calls.append(("ob", a))
+
+    def floor(self, *a) -> None:
+        self._calls.append(("floor", a))
+
+    def saw(self, *a) -> None:
+        self._calls.append(("saw", a))
+
+    def flush(self) -> None:
+        for name, a in self._calls:
+            getattr(self._ctx, name)(*a)
+
+
 def _parse_etags_wiring(ctx: Ctx, model: ETagsModel) -> None:
+    """parse_etags files weak / strong / star members under the constructor parameter of that name.  Two readings of
+    the function decide the same obligations: the path walk over parse_etags' own control flow (exact about aliases
+    carried from one member to the next), and - when the lists, the flag or the member loop are spelled in a way the
+    path walk does not follow (member loop in a generator helper, lists kept in a table indexed by the flag, lists
+    built by comprehensions, ...) - the symbolic summary of the function (helpers inlined, a generator helper read as
+    the loop that produces the items, `table[bool(flag)]` read as a selection by the flag)."""
+    first = _Deferred(ctx)
+    try:
+        _parse_etags_wiring_paths(first, model)  # type: ignore[arg-type]
+    except AnalysisError as e1:
+        second = _Deferred(ctx)
+        try:
+            _parse_etags_wiring_summary(second, model)  # type: ignore[arg-type]
+        except AnalysisError as e2:
+            raise AnalysisError(f"{e1}; on the symbolic summary: {e2}")
+        second.flush()
+        return
+    first.flush()
+
+
+def _etag_group(t_) -> int | None:
+    """regex group a term denotes: m.groups()[i] -> i + 1, m[k] / m.group(k) -> k"""
+    if t_[0] == "idx" and S6.is_c(t_[2]) and isinstance(S6.cv(t_[2]), int) and not isinstance(S6.cv(t_[2]), bool):
+        if t_[1][0] == "meth" and t_[1][1] == "groups":
+            return S6.cv(t_[2]) + 1
+        if t_[1][0] == "meth" and t_[1][1] in ("match", "fullmatch", "search"):
+            return S6.cv(t_[2])
+    if t_[0] == "meth" and t_[1] == "group" and len(t_[3]) == 1 and S6.is_c(t_[3][0]) and isinstance(S6.cv(t_[3][0]), int):
+        return S6.cv(t_[3][0])
+    return None
+
+
+def _etag_group_truth(a, tr: bool):
+    """(group term, group number, present?) stated by a path-condition atom: `g`, `bool(g)`, `g is None`"""
+    k = _etag_group(a)
+    if k is not None:
+        return a, k, tr
+    if a[0] == "cmp" and a[1] == "is" and S6.NONE in (a[2], a[3]):
+        g = a[3] if a[2] == S6.NONE else a[2]
+        k = _etag_group(g)
+        if k is not None:
+            return g, k, not tr
+    return None
+
+
+def _star_compared(conds) -> list:
+    """what the conditions that hold compare with '*': `x == '*'`, `'*' in [x ...]`, `any(x == '*' ...)`"""
+    out: list = []
+    star = S6.C("*")
+
+    def of_cmp(a) -> None:
+        if a[0] == "cmp" and a[1] == "==" and star in (a[2], a[3]):
+            out.append(a[3] if a[2] == star else a[2])
+
+    for a, tr in conds:
+        if not tr:
+            continue
+        of_cmp(a)
+        if a[0] == "call" and a[1] == ("g", "builtins.any") and len(a[2]) == 1 and S6.coll_items(a[2][0]) is not None:
+            for _, it_ in S6.coll_items(a[2][0]):
+                of_cmp(it_)
+        if a[0] == "cmp" and a[1] == "in" and a[2] == star and S6.coll_items(a[3]) is not None:
+            out.extend(it_ for _, it_ in S6.coll_items(a[3]))
+    return out
+
+
+def _parse_etags_wiring_summary(ctx: Ctx, model: ETagsModel) -> None:
+    """the same obligations read off the symbolic summary of parse_etags (`_c06_helpers`): every returned
+    ETags(...) construction, the items of the two list arguments with the per-member conditions they are stored
+    under, and the path condition of the star result."""
+    R = "R11.1"
+    repo = ctx.repo
+    pe = repo.func("werkzeug.http.parse_etags")
+    folder = Folder(repo)
+    PE = S6.Summaries(repo, folder).of(pe)
+    names = [p for p in model.init.params if p != "self"]
+    builds = [o for o in PE.returns if o.term[0] == "call" and o.term[1] == ("g", model.cls.fq)]
+    if not builds:
+        raise AnalysisError("parse_etags: no ETags construction is returned")
+
+    def arg(call, pname: str):
+        for kw in call[3]:
+            if kw[1] == pname:
+                return kw[2]
+            if kw[1] == "**":
+                raise AnalysisError("parse_etags: ETags(**...) is not followed")
+        i = names.index(pname)
+        return call[2][i] if i < len(call[2]) else None
+
+    nlist = 0
+    any_bad = False
+    flags: dict = {}  # group-1 term -> a condition it was read from
+    filed = {"weak_etags": [], "strong_etags": []}
+    for o in builds:
+        st = arg(o.term, "star_tag")
+        if st is not None and st != S6.FALSE:
+            nlist += 1
+            cmp_ = _star_compared(o.conds)
+            if not cmp_ and any(x[0] in ("it", "v") or (x[0] == "call" and x[1] not in (("g", "builtins.len"), ("g", "builtins.bool"))) for a, _ in o.conds for x in S6.walk(a)):
+                raise AnalysisError(f"parse_etags: star_tag is set under `{S6.show_conds(o.conds)[:160]}`, which does not show a comparison with '*'")
+            ctx.ob(R, "parse_etags: star_tag is set only for a '*' member", bool(cmp_) and st == S6.TRUE, f"`ETags({names[2] if len(names) > 2 else 'star_tag'}={S6.show(st)})` returned under {[S6.show(x)[:60] + " == '*'" for x in cmp_]}", pe, o.node, "parse_etags star")
+        for pname in ("weak_etags", "strong_etags"):
+            a = arg(o.term, pname)
+            if a is None or a == S6.NONE:
+                continue
+            while a[0] == "call" and a[1][0] == "g" and a[1][1] in ("builtins.list", "builtins.tuple", "builtins.set", "builtins.frozenset", "builtins.sorted") and len(a[2]) == 1 and not a[3]:
+                a = a[2][0]
+            items = S6.coll_items(a)
+            if items is None:
+                raise AnalysisError(f"parse_etags: `{S6.show(a)[:80]}` passed as {pname} is not a collection built in parse_etags or its helpers")
+            for cs, it_ in items:
+                filed[pname].append((o, cs, it_))
+    if not filed["weak_etags"] or not filed["strong_etags"]:
+        lost = f" (a store into `{PE.lost[0]}` is not followed)" if PE.lost else ""
+        raise AnalysisError(f"parse_etags: nothing is seen appended to the list passed as {'weak_etags' if not filed['weak_etags'] else 'strong_etags'}{lost}")
+    for pname, want, what in (("weak_etags", True, "weak"), ("strong_etags", False, "strong")):
+        bad = []
+        for o, cs, it_ in sorted(filed[pname], key=lambda x: repr(x[1:])):
+            told = [gt for a, tr in cs for gt in [_etag_group_truth(a, tr)] if gt is not None and gt[1] == 1]
+            for g, _, _ in told:
+                flags.setdefault(g, cs)
+            vals = {present for _, _, present in told}
+            if not told:
+                odd = [a for a, _ in cs if any(_etag_group(x) == 1 or (x[0] == "meth" and x[1] in ("group", "groupdict") and _etag_group(x) is None) for x in S6.walk(a))]
+                if odd or PE.lost:
+                    raise AnalysisError(f"parse_etags: a tag is filed as {what} under a condition that is not read as 'the W/ group is present / absent': {S6.show(odd[0])[:120] if odd else PE.lost[0]}")
+            if vals != {want}:
+                bad.append(f"`{S6.show(it_)[:60]}` under `{S6.show_conds(cs)[:200]}`")
+        nlist += 1
+        any_bad = any_bad or bool(bad)
+        ctx.ob(R, f"parse_etags: the list passed as {pname} collects the {what} tags", not bad, f"{len(filed[pname])} stored item(s) of the returned {pname} list, each under its member's W/ group {'present' if want else 'absent'}" + (f"; not so: {bad[:2]}" if bad else ""), pe, pe.node, f"parse_etags {pname} append")
+    ctx.floor(R, "parse_etags list wiring", nlist, 3)
+    # the flag is group 1 of the tag regex, the W/ marker
+    regexes = set()
+    if not flags and any_bad:
+        return  # no member condition mentions the W/ group at all: the list obligations above say so
+    for g in flags:
+        m = next((x for x in S6.walk(g) if x[0] == "meth" and x[1] in ("match", "fullmatch", "search") and x[2][0] == "g"), None)
+        if m is None:
+            raise AnalysisError(f"parse_etags: the match object behind the weakness flag `{S6.show(g)[:80]}` is not a match of a module-level regex")
+        regexes.add(m[2][1])
+    if len(regexes) != 1:
+        raise AnalysisError(f"parse_etags: the weakness flag is read from matches of several regexes: {sorted(regexes)}")
+    fq = next(iter(regexes))
+    mn, _, nm = fq.rpartition(".")
+    rx = folder.name(repo.module(mn), nm)
+    if not isinstance(rx, RegexConst):
+        raise AnalysisError(f"parse_etags: {fq} does not fold to a regex")
+    cls0 = classes_in(rx)
+    marker = bool(cls0) and cls0[0] == {ord("W"), ord("w")} and group_width(rx, 1) == (2, 2) and str(rx.pattern).startswith("(")
+    ctx.ob(R, "parse_etags: the weakness flag is group 1 of the tag regex, the W/ marker", marker, f"group 1 of {nm} = {rx.pattern!r}: first class {sorted(map(chr, cls0[0])) if cls0 else None}, group 1 width {group_width(rx, 1)}", pe, pe.node, "parse_etags weak flag group")
+
+
+def _parse_etags_wiring_paths(ctx: Ctx, model: ETagsModel) -> None:
     """every append that can reach the list handed to ETags(weak_etags=...) happens only when the W/ flag of the
     current member is set, every append reaching strong_etags only when it is not.  Decided by walking the paths from
     the statement that binds the flag to each append and resolving the receiver along the path (the list itself, a
@@ -411,6 +591,10 @@ def _parse_etags_wiring(ctx: Ctx, model: ETagsModel) -> None:
                 pp = astq.cmp_parts(t_.ast) if t_.ast is not None else None
                 if pp and any(astq.const_str(x) == "*" for x in (pp[0], pp[2])) and (isinstance(pp[1], ast.Eq) and l == "T" or isinstance(pp[1], ast.NotEq) and l == "F"):
                     stars.append(t_)
+            if not stars and any(t_.ast is not None and (astq.names_in(t_.ast) - set(pe.params)) for t_, _ in PA.guards(c)):
+                # guarded by a test on a local that is not itself a comparison with '*' (a flag computed earlier, a value
+                # handed over by a helper): what the local stands for is read off the symbolic summary
+                raise AnalysisError(f"parse_etags: `{norm(c)}` is guarded by {[norm(t_.ast) for t_, _ in PA.guards(c) if t_.ast is not None]}, none of which is a comparison with '*'")
             ctx.ob(R, "parse_etags: star_tag is set only for a '*' member", bool(stars) and isinstance(st, ast.Constant) and st.value is True, f"`{norm(c)}` guarded by {[norm(t_.ast) for t_ in stars]}", pe, c, "parse_etags star")
     if set(tracked.values()) != {"weak_etags", "strong_etags"}:
         raise AnalysisError(f"parse_etags: no ETags construction receives both a weak and a strong list ({sorted(set(tracked.values()))})")
@@ -1007,13 +1191,40 @@ def _status_code_of(v: ast.AST | None) -> int | None:
     return None
 
 
-def _status_stores_c(fn: ast.AST) -> list[tuple[ast.Assign, int, list[tuple[ast.AST, str]]]]:
+def _status_stores_c(fn: ast.AST, A: FA | None = None) -> list[tuple[ast.Assign, int, list[tuple[ast.AST, str]]]]:
     """(statement, status code, extra condition atoms) for `self.status_code = <const>` and for each arm of
-    `self.status_code = <const> if c else <const>`."""
+    `self.status_code = <const> if c else <const>` (or of a two-entry table of constants indexed by a truth value;
+    the stored value may also come through a local bound once)."""
+
+    def lookup(n: ast.Name) -> ast.AST | None:
+        if A is None:
+            return None
+        try:
+            v = A.single_value(n)
+        except AnalysisError:
+            v = None
+        if v is None and not A.defs_at(A.node(n), n.id):
+            try:
+                c = Folder(A.repo).name(A.fi.module, n.id)
+            except AnalysisError:
+                return None
+            if isinstance(c, (dict, tuple, list)) and len(c) == 2:
+                try:
+                    return ast.parse(repr(c), mode="eval").body
+                except (SyntaxError, ValueError):
+                    return None
+        return v
+
     out = []
     for s in walk_no_nested(fn):
         if isinstance(s, ast.Assign) and len(s.targets) == 1 and (astq.is_self_attr(s.targets[0], "status_code") or astq.is_self_attr(s.targets[0], "status")):
-            for v, conds in H.split_ifexp(s.value):
+            val = s.value
+            if isinstance(val, ast.Name) and A is not None:  # code = 412 if if_match else 304; self.status_code = code
+                try:
+                    val = A.single_value(val) or val
+                except AnalysisError:
+                    pass
+            for v, conds in H.split_ifexp(val, (), lookup):
                 code = _status_code_of(v)
                 if code is not None:
                     atoms: list[tuple[ast.AST, str]] = []
@@ -1105,7 +1316,7 @@ def rule_4(ctx: Ctx) -> None:
         return hk is not None and hk[0] == env_name and hk[1] == "HTTP_IF_MATCH"
 
     im_atoms = [t_ for t_ in M.cfg.tests() if t_.kind == "test" and t_.ast is not None and im_expr(t_.ast)]
-    stores = [(s, code, extra) for s, code, extra in _status_stores_c(mc.node) if code in (304, 412)]
+    stores = [(s, code, extra) for s, code, extra in _status_stores_c(mc.node, M) if code in (304, 412)]
     if not any(code == 304 for _, code, _ in stores):
         raise AnalysisError(f"{mc.fq}: no assignment of status 304")
     ctx.floor(R, "304/412 assignments in make_conditional", len(stores), 2)
